@@ -274,7 +274,7 @@ def bidir (fwd bwd : Nat → List Nat) (fuel : Nat) (s t : Nat) : Option Bool :=
   if s = t then some true
   else bidirLoop fwd bwd fuel { outQ := [s], inQ := [t], outSet := [s], inSet := [t], visited := [] }
 
-def bidirFuel (n : Nat) : Nat := 2 * n + 3
+def bidirFuel (n : Nat) : Nat := 2 * n + 5
 
 def CompGraph.componentReachable (cg : CompGraph) (s t : Nat) (d : Dir) : Option Bool :=
   bidir (cg.dg.adj d) (cg.dg.adj d.reverse) (bidirFuel cg.dg.nodes.length) s t
